@@ -803,7 +803,7 @@ def make_ref_source(world, plan, as_container=False):
 
 # --------------------------------------------------------------------------- callables
 FN_FLAVOURS = ("def", "async", "partial_async", "obj_coro", "obj_awaitable", "obj_falsy", "cls_awaitable", "obj_future",
-               "obj_unhashable", "cls_async_call")
+               "obj_unhashable", "cls_async_call", "def_wraps_async")
 
 
 class FnPlan:
@@ -1069,6 +1069,18 @@ def make_async_fn(world, plan):
             return sync_call(*args)
 
         fn.obj = plain
+    elif fl == "def_wraps_async":
+        # a synchronous stand-in (cache front, local fallback) carrying the metadata of the async function it replaces
+        sync_call = fn.sync_call
+
+        async def remote(*args):  # pragma: no cover - never called
+            raise AssertionError("the wrapped original must not be called")
+
+        @functools.wraps(remote)
+        def standin(*args):
+            return sync_call(*args)
+
+        fn.obj = standin
     elif fl == "async":
         async_call = fn.async_call
 
